@@ -158,6 +158,15 @@ class Categorize(Factory, Container):
         if mine is not None and theirs is not None:
             mine + theirs  # raises ContainerException if the structures differ at any depth
 
+    def _adopt(self, sub):
+        """Copy of a bin that only the other operand has.
+
+        If this container can be filled (it has a value template) the copy is built from the template, so it stays
+        fillable even when the other operand is immutable (reloaded from JSON, as in ``fillsparksql``)."""
+        if self.value is not None:
+            return self.value.zero() + sub
+        return sub.copy()
+
     def _keepContentType(self, out):
         """An immutable container (from JSON or ed) has no value template.
 
@@ -188,7 +197,7 @@ class Categorize(Factory, Container):
                 elif k in self.bins:
                     out.bins[k] = self.bins[k].copy()
                 else:
-                    out.bins[k] = other.bins[k].copy()
+                    out.bins[k] = self._adopt(other.bins[k])
             return self._keepContentType(out).specialize()
 
         raise ContainerException(f"cannot add {self.name} and {other.name}")
@@ -206,7 +215,7 @@ class Categorize(Factory, Container):
                 if k in self.bins and k in other.bins:
                     self.bins[k] += other.bins[k]
                 elif k not in self.bins and k in other.bins:
-                    self.bins[k] = other.bins[k].copy()
+                    self.bins[k] = self._adopt(other.bins[k])
             return self
         raise ContainerException(f"cannot add {self.name} and {other.name}")
 
